@@ -178,3 +178,207 @@ package core
 //@   requires c != nil
 //@   assigns c.mark
 //@   ensures c.mark == -1
+
+// ---------------------------------------------------------------------------------------
+// Line: the edit primitives (C16, C17, C14, C02 depend on these)
+
+// stripz: Insert drops trailing NUL runes while more than one rune is left.
+//@ spec stripz(s []rune) []rune
+//@ axiom stripz_id(s []rune): (len(s) <= 1 || s[len(s) - 1] != 0) ==> stripz(s) == s
+//@ trigger stripz(s)
+//@ axiom stripz_step(s []rune): (len(s) > 1 && s[len(s) - 1] == 0) ==> stripz(s) == stripz(s[:len(s) - 1])
+//@ trigger stripz(s)
+
+//@ func (*Line).Set
+//@   props C16 C06 C01
+//@   terminates
+//@   requires l != nil
+//@   assigns *l
+//@   ensures *l == chars
+
+//@ func (*Line).Insert
+//@   props C16 C14 C02 C06 C01
+//@   terminates
+//@   requires l != nil && clean(*l) && clean(chars)
+//@   assigns *l
+//@   ensures clean(*l)
+//@   ensures pos < 0 || pos > old(len(*l)) ==> *l == old(*l)
+//@   ensures 0 <= pos && pos <= old(len(*l)) ==> *l == old((*l)[:pos]) + stripz(chars) + old((*l)[pos:])
+//@   loop 1 invariant stripz(chars) == stripz(chars$0) && clean(chars)
+//@   loop 1 decreases len(chars)
+
+//@ func (*Line).checkRange
+//@   props C16 C06 C01
+//@   terminates
+//@   requires l != nil
+//@   pure
+//@   ensures bpos == -1 && epos == -1 ==> !result2
+//@   ensures !(bpos == -1 && epos == -1) ==> result2
+//@   ensures result2 ==> result0 >= 0 && result1 <= max(len(*l), bpos)
+//@   ensures result2 && epos > -1 ==> result0 <= result1 && result0 == min(max(bpos, 0), min(epos, len(*l))) && result1 == max(max(bpos, 0), min(epos, len(*l)))
+//@   ensures result2 && epos <= -1 ==> result0 == max(bpos, 0) && result1 == epos
+
+//@ func (*Line).Cut
+//@   props C16 C17 C06 C01
+//@   terminates
+//@   requires l != nil && clean(*l)
+//@   requires [cut-range] bpos <= len(*l) && epos >= -1
+//@   assigns *l
+//@   ensures clean(*l)
+//@   ensures 0 <= bpos && bpos <= epos && epos <= old(len(*l)) ==> *l == old((*l)[:bpos]) + old((*l)[epos:])
+
+//@ func (*Line).CutRune
+//@   props C16 C06 C01
+//@   terminates
+//@   requires l != nil && clean(*l)
+//@   assigns *l
+//@   ensures clean(*l)
+//@   ensures 0 <= pos && pos < old(len(*l)) ==> *l == old((*l)[:pos]) + old((*l)[pos + 1:])
+//@   ensures pos < 0 || pos > old(len(*l)) ==> *l == old(*l)
+
+//@ func (*Line).InsertBetween
+//@   props C14 C06 C01
+//@   terminates
+//@   requires l != nil && clean(*l) && clean(chars)
+//@   requires [insert-range] bpos <= len(*l) && epos >= -1
+//@   assigns *l
+//@   ensures clean(*l)
+//@   ensures 0 <= bpos && bpos <= epos && epos <= old(len(*l)) && epos < old(len(*l)) ==> *l == old((*l)[:bpos]) + chars + old((*l)[epos:])
+//@   ensures 0 <= bpos && bpos <= epos && epos == old(len(*l)) ==> *l == old((*l)[:bpos]) + chars
+
+// ---------------------------------------------------------------------------------------
+// Selection
+
+//@ pred svalid(s *Selection) = s != nil && s.line != nil && s.cursor != nil && s.cursor.line == s.line
+
+// (*Selection).checkRange as spec functions of the line length L and the two positions.
+//@ spec crV(L int, b int, e int) bool = L != 0 && !(b < 0 && e < 0) && !(b > L && e > L)
+//@ spec crB(L int, b int, e int) int = ite(min(b, L) < 0, min(e, L), ite(min(e, L) < 0, min(b, L), min(min(b, L), min(e, L))))
+//@ spec crE(L int, b int, e int) int = ite(min(b, L) < 0, -1, ite(min(e, L) < 0, -1, max(min(b, L), min(e, L))))
+
+// beginning / end of the text line around a position (visual-line selections)
+//@ spec bol(l []rune, b int) int
+//@ axiom bol_lo(l []rune, b int): b <= 0 ==> bol(l, b) == 0
+//@ trigger bol(l, b)
+//@ axiom bol_char(l []rune, b int): 0 < b && b <= len(l) ==> 0 <= bol(l, b) && bol(l, b) <= b && (bol(l, b) == 0 || l[bol(l, b) - 1] == '\n') && all(k, bol(l, b), b, l[k] != '\n')
+//@ trigger bol(l, b)
+//@ spec eol(l []rune, e int) int
+//@ axiom eol_hi(l []rune, e int): e >= len(l) ==> eol(l, e) == e
+//@ trigger eol(l, e)
+//@ axiom eol_char(l []rune, e int): 0 <= e && e < len(l) ==> e <= eol(l, e) && eol(l, e) <= len(l) && (eol(l, e) == len(l) || l[eol(l, e)] == '\n') && all(k, e, eol(l, e), l[k] != '\n')
+//@ trigger eol(l, e)
+
+// selectToCursor(b) with cursor position cp (already clamped)
+//@ spec stcB(l []rune, vl bool, b int, cp int) int = ite(vl, min(bol(l, min(b, cp)), eol(l, max(max(b, cp), 0))), min(b, cp))
+//@ spec stcE(l []rune, vl bool, b int, cp int) int = ite(vl, max(bol(l, min(b, cp)), eol(l, max(max(b, cp), 0))), max(b, cp))
+
+// The (begin, end) pair Selection.Pos() returns, as a function of the state.
+//@ spec clampi(x int, L int) int = max(0, min(L, x))
+//@ spec selB1(s *Selection) int = ite(crE(len(*s.line), s.bpos, s.epos) == -1, stcB(*s.line, s.visualLine, crB(len(*s.line), s.bpos, s.epos), clampi(s.cursor.pos, len(*s.line))), crB(len(*s.line), s.bpos, s.epos))
+//@ spec selE1(s *Selection) int = ite(crE(len(*s.line), s.bpos, s.epos) == -1, stcE(*s.line, s.visualLine, crB(len(*s.line), s.bpos, s.epos), clampi(s.cursor.pos, len(*s.line))), crE(len(*s.line), s.bpos, s.epos)) + ite(s.visual, 1, 0)
+//@ spec selok(s *Selection) bool = len(*s.line) != 0 && s.active && crV(len(*s.line), s.bpos, s.epos) && crV(len(*s.line), selB1(s), selE1(s))
+//@ spec selB(s *Selection) int = ite(selok(s), crB(len(*s.line), selB1(s), selE1(s)), -1)
+//@ spec selE(s *Selection) int = ite(selok(s), crE(len(*s.line), selB1(s), selE1(s)), -1)
+
+//@ func (*Selection).checkRange
+//@   props C16 C17 C06 C01
+//@   terminates
+//@   requires s != nil && s.line != nil
+//@   pure
+//@   ensures result2 == crV(len(*s.line), bpos, epos)
+//@   ensures result2 ==> result0 == crB(len(*s.line), bpos, epos) && result1 == crE(len(*s.line), bpos, epos)
+//@   ensures !result2 ==> result0 == -1 && result1 == -1
+
+//@ func (*Selection).Active
+//@   props C16 C17 C06 C01
+//@   terminates
+//@   requires s != nil
+//@   pure
+//@   ensures result == s.active
+
+//@ func (*Selection).MarkRange
+//@   props C16 C17 C06 C01
+//@   terminates
+//@   requires s != nil && s.line != nil
+//@   assigns s.Type, s.active, s.bpos, s.epos, s.bg
+//@   ensures crV(len(*s.line), bpos, epos) ==> s.active && s.bpos == crB(len(*s.line), bpos, epos) && s.epos == crE(len(*s.line), bpos, epos)
+//@   ensures !crV(len(*s.line), bpos, epos) ==> s.active == old(s.active) && s.bpos == old(s.bpos) && s.epos == old(s.epos)
+
+//@ func (*Selection).Mark
+//@   props C16 C17 C06 C01
+//@   terminates
+//@   requires s != nil && s.line != nil
+//@   assigns s.Type, s.active, s.bpos, s.epos, s.bg
+//@   ensures 0 <= pos && pos <= len(*s.line) && len(*s.line) > 0 ==> s.active && s.bpos == pos && s.epos == -1
+//@   ensures !(0 <= pos && pos <= len(*s.line) && len(*s.line) > 0) ==> s.active == old(s.active) && s.bpos == old(s.bpos) && s.epos == old(s.epos)
+
+//@ func (*Selection).Visual
+//@   props C17 C06 C01
+//@   terminates
+//@   requires s != nil
+//@   assigns s.visual, s.visualLine
+//@   ensures s.visual && s.visualLine == line
+
+//@ func (*Selection).IsVisual
+//@   props C17 C06 C01
+//@   terminates
+//@   requires s != nil
+//@   pure
+//@   ensures result == s.visual
+
+//@ func (*Selection).Reset
+//@   props C16 C17 C06 C01
+//@   terminates
+//@   requires s != nil
+//@   assigns s.Type, s.active, s.visual, s.visualLine, s.bpos, s.epos, s.kpos, s.fg, s.bg, s.surrounds
+//@   ensures !s.active && !s.visual && !s.visualLine && s.bpos == -1 && s.epos == -1
+//@   ensures old(len(s.surrounds)) == 0 ==> len(s.surrounds) == 0
+//@   loop 1 invariant old(len(s.surrounds)) == 0 ==> len(surrounds) == 0
+
+//@ func (*Selection).selectToCursor
+//@   props C16 C17 C06 C01
+//@   terminates
+//@   requires svalid(s) && 0 <= bpos && bpos <= len(*s.line)
+//@   assigns s.cursor.pos, s.cursor.mark
+//@   ensures cclamp(s.cursor)
+//@   ensures result0 == stcB(*s.line, s.visualLine, bpos, s.cursor.pos) && result1 == stcE(*s.line, s.visualLine, bpos, s.cursor.pos)
+//@   ensures 0 <= result0 && result0 <= result1 && result1 <= len(*s.line)
+//@   loop 1 invariant -1 <= bpos && bpos < min(bpos$0, s.cursor.pos) && all(k, bpos + 1, min(bpos$0, s.cursor.pos), (*s.line)[k] != '\n') && cok(s.cursor)
+//@   loop 1 decreases bpos + 1
+//@   loop 2 invariant max(bpos$0, s.cursor.pos) <= epos && epos <= len(*s.line) && all(k, max(bpos$0, s.cursor.pos), epos, (*s.line)[k] != '\n') && cok(s.cursor) && bpos == bol(*s.line, min(bpos$0, s.cursor.pos))
+//@   loop 2 decreases len(*s.line) - epos
+
+//@ func (*Selection).Pos
+//@   props C16 C17 C06 C01
+//@   terminates
+//@   requires svalid(s)
+//@   assigns s.bpos, s.epos, s.cursor.pos, s.cursor.mark
+//@   ensures [is-selpos] result0 == old(selB(s)) && result1 == old(selE(s))
+//@   ensures [idempotent] selB(s) == result0 && selE(s) == result1
+//@   ensures [in-range] (result0 == -1 && result1 == -1) || (0 <= result0 && result0 <= result1 && result1 <= len(*s.line))
+//@   ensures [cursor] old(cok(s.cursor)) ==> s.cursor.pos == old(s.cursor.pos) && s.cursor.mark == old(s.cursor.mark)
+//@   ensures [cursor] s.cursor.pos == old(s.cursor.pos) || cclamp(s.cursor)
+
+//@ func (*Selection).Text
+//@   props C16 C17 C06 C01
+//@   terminates
+//@   requires svalid(s)
+//@   assigns s.bpos, s.epos, s.cursor.pos, s.cursor.mark
+//@   ensures [text] old(selB(s)) == -1 || old(selE(s)) == -1 ==> len(result) == 0
+//@   ensures [text] old(selB(s)) != -1 && old(selE(s)) != -1 ==> result == str(old((*s.line)[selB(s):selE(s)]))
+//@   ensures [idempotent] selB(s) == old(selB(s)) && selE(s) == old(selE(s))
+//@   ensures [cursor] old(cok(s.cursor)) ==> s.cursor.pos == old(s.cursor.pos) && s.cursor.mark == old(s.cursor.mark)
+//@   ensures [cursor] s.cursor.pos == old(s.cursor.pos) || cclamp(s.cursor)
+
+//@ func (*Selection).Cut
+//@   props C16 C17 C06 C01
+//@   terminates
+//@   requires svalid(s) && clean(*s.line)
+//@   assigns *s.line, s.Type, s.active, s.visual, s.visualLine, s.bpos, s.epos, s.kpos, s.fg, s.bg, s.surrounds, s.cursor.pos, s.cursor.mark
+//@   ensures clean(*s.line)
+//@   ensures [cut] old(len(s.surrounds)) == 0 && old(selB(s)) != -1 && old(selE(s)) != -1 ==> result == str(old((*s.line)[selB(s):selE(s)])) && *s.line == old((*s.line)[:selB(s)] + (*s.line)[selE(s):])
+//@   ensures [cut-none] old(len(s.surrounds)) == 0 && (old(selB(s)) == -1 || old(selE(s)) == -1) ==> len(result) == 0 && *s.line == old(*s.line)
+//@   ensures [reset] old(len(*s.line)) > 0 ==> !s.active && !s.visual && !s.visualLine && s.bpos == -1 && s.epos == -1
+//@   ensures [cursor] old(cok(s.cursor)) ==> s.cursor.pos == old(s.cursor.pos) && s.cursor.mark == old(s.cursor.mark)
+//@   ensures [cursor] s.cursor.pos == old(s.cursor.pos) || s.cursor.pos == old(clampi(s.cursor.pos, len(*s.line)))
+//@   loop 1 invariant clean(*s.line)
